@@ -84,6 +84,10 @@ type Case struct {
 	// (exercises a second split action on children).
 	NestedSplit bool
 
+	// ChargeRendezvous > 1: callers of streamer.makeCharged wait (at most 3 ms)
+	// until that many have arrived, so several streams are charged back to back.
+	ChargeRendezvous int
+
 	Trace bool // stream every record to the child's on-disk log (used when re-running a crashing case)
 
 	Spread bool // input calls UseSpread + DisableStreams (kafka-like)
